@@ -64,6 +64,14 @@ theorem resolveU_complete :
     ∃ order, resolveU items = .ok order :=
   @Ts.resolveU_complete
 
+/-- both directions together: on item sets with at most one provider per entity `resolve` succeeds exactly when every
+requirement is provided and the dependency edges are acyclic -/
+theorem resolveU_iff :
+    ∀ (items : List RItem) (hw : WFItems items),
+    (∃ order, resolveU items = .ok order) ↔
+      ((∀ q ∈ items, ∀ k ∈ q.requires, ∃ p ∈ items, k ∈ p.provides) ∧ Ranked (depEdges items)) :=
+  @Ts.resolveU_iff
+
 /-- the premises are decided by a checker the driver runs on every compared case -/
 theorem wfItemsCheck_sound :
     ∀ (items : List RItem) (h : wfItemsCheck items = true), WFItems items :=
